@@ -4,7 +4,9 @@ package c13
 //
 //   C13 cache (val VAL) (threads (th OP*) (th OP*) …) (sched T*)
 //
-//   VAL ::= (a E*)              an Array of scalars
+//   VAL ::= (a (E | (y))*)      an Array of scalars and SLOW elements: (y) is a value of a harness-defined kind whose own
+//                               PType() is a yield point ("elem.ptype") and answers NotUndef — the fill of the Array's
+//                               caches can so be preempted INSIDE its fold over the elements
 //         | (h (K E)*)          a Hash; keys are non-empty strings or integers, distinct
 //   E, K ::= (i N) | (s xHEX)
 //   OP  ::= ptype               v.PType()              (Array/Hash.privateReducedType)
@@ -16,12 +18,20 @@ package c13
 // All threads work on ONE shared value.  Yield points: "op" (harness) and the verifhook points placed right after the
 // publication of the cache pointer in the four fill functions (array|hash.reduced|detailed.published).
 // Every operation is a pure read, so the only sequential answer is the one a single goroutine gets on a fresh equal
-// value; an answer is rendered `full` when it equals that, `half` when it differs, `fault` when the operation crashed.
-// Output: `0:[full ; half] 1:[full]`.  Predicate classes: `half-built` (some answer is `half`), `half-built-crash` (some answer is `fault`).
+// value; an answer is rendered `full` when it equals that, `fault` when the operation crashed; otherwise `half` when the
+// type handed out is at least a type of the shared value (px.IsInstance, asked at the moment it was handed out — the
+// placeholder of the known finding is one) and `narrow` when it is not.  A value with slow elements is only asked for
+// its types (ptype, dtype, str).
+// Output: `0:[full ; half] 1:[full]`.  Predicate classes: `narrow-type` (some answer is `narrow`), `half-built` (some
+// answer is `half`), `half-built-crash` (some answer is `fault`).
+//
+//   C13 typerace N R    free-running, see execTypeRace
 
 import (
 	"fmt"
+	"io"
 	"strings"
+	"sync"
 
 	"verif/harness/c12"
 	"verif/harness/core"
@@ -50,12 +60,36 @@ func scalarOf(e sx.Sexp) px.Value {
 	panic(c12.Bad{})
 }
 
+// slowElem: a value whose own type inference is a yield point
+type slowElem struct{}
+
+func (v *slowElem) String() string                                         { return "slow" }
+func (v *slowElem) Equals(o interface{}, g px.Guard) bool                  { return v == o }
+func (v *slowElem) ToString(b io.Writer, s px.FormatContext, g px.RDetect) { _, _ = io.WriteString(b, "slow") }
+func (v *slowElem) PType() px.Type {
+	yield("elem.ptype")
+	return types.DefaultNotUndefType()
+}
+
+func hasSlow(e sx.Sexp) bool {
+	for _, x := range e.Args() {
+		if x.Tag() == "y" {
+			return true
+		}
+	}
+	return false
+}
+
 // buildVal makes a fresh value (a new object every time it is called)
 func buildVal(e sx.Sexp) px.Value {
 	switch e.Tag() {
 	case "a":
 		es := []px.Value{}
 		for _, x := range e.Args() {
+			if x.Tag() == "y" && len(x.Args()) == 0 && x.IsList {
+				es = append(es, &slowElem{})
+				continue
+			}
 			es = append(es, scalarOf(x))
 		}
 		return types.WrapValues(es)
@@ -84,13 +118,21 @@ func buildVal(e sx.Sexp) px.Value {
 // cacheOp: the cache access of the op runs under the scheduler; rendering the answer does not (printing a type walks
 // temporary Arrays of its own, whose cache fills would otherwise be scheduled too)
 func cacheOp(v px.Value, op string, fresh func() px.Value, refType px.Type) (res string) {
+	res, _ = cacheOp2(v, op, fresh, refType)
+	return
+}
+
+// cacheOp2 also tells whether a type that was handed out is a type of the value (asked at once: the object may be completed
+// in place later)
+func cacheOp2(v px.Value, op string, fresh func() px.Value, refType px.Type) (res string, sound bool) {
+	sound = true
 	switch op {
 	case "ptype":
 		t := v.PType()
-		quietly(func() { res = t.String() })
+		quietly(func() { res = t.String(); sound = px.IsInstance(t, v) })
 	case "dtype":
 		t := px.DetailedValueType(v)
-		quietly(func() { res = t.String() })
+		quietly(func() { res = t.String(); sound = px.IsInstance(t, v) })
 	case "str":
 		v.PType() // what ToString does first (px.GetFormat(formatMap, v.PType()))
 		quietly(func() { res = v.String() })
@@ -139,22 +181,37 @@ func execCache(args []sx.Sexp) core.Result {
 		}
 		schedule = append(schedule, int(n))
 	}
+	if hasSlow(vs) {
+		for _, p := range progs {
+			for _, o := range p {
+				if o != "ptype" && o != "dtype" && o != "str" {
+					return core.Result{Out: "bad-op", Pred: "n/a"}
+				}
+			}
+		}
+	}
 	// the sequential answers, on a fresh equal value
 	ref := map[string]string{}
 	fresh := func() px.Value { return buildVal(vs) }
 	refType := px.DetailedValueType(fresh())
 	for op := range cacheOps {
+		if hasSlow(vs) && op != "ptype" && op != "dtype" && op != "str" {
+			continue
+		}
 		ref[op] = cacheOp(fresh(), op, fresh, refType)
 	}
 	raw := make([][]string, len(progs))
 	cacheSites := func(site string) bool {
-		return site == "op" || strings.HasSuffix(site, ".reduced.published") || strings.HasSuffix(site, ".detailed.published")
+		return site == "op" || site == "elem.ptype" || strings.HasSuffix(site, ".reduced.published") || strings.HasSuffix(site, ".detailed.published")
 	}
 	outs, sites, preempted := runThreads(len(progs), cacheSites, func(t int) int { return len(progs[t]) }, func(t, i int) string {
-		s := cacheOp(shared, progs[t][i], fresh, refType) // a panic is rendered "fault" by runThreads
+		s, sound := cacheOp2(shared, progs[t][i], fresh, refType) // a panic is rendered "fault" by runThreads
 		raw[t] = append(raw[t], s)
 		if s == ref[progs[t][i]] {
 			return "full"
+		}
+		if !sound {
+			return "narrow"
 		}
 		return "half"
 	}, schedule)
@@ -170,6 +227,19 @@ func execCache(args []sx.Sexp) core.Result {
 		res.Tags = append(res.Tags, "site:"+site)
 	}
 	res.Tags = append(res.Tags, "val:"+vs.Tag())
+	for t := range progs {
+		for i, o := range outs[t] {
+			if o == "narrow" {
+				got := "?"
+				if i < len(raw[t]) {
+					got = raw[t][i]
+				}
+				res.Pred = fmt.Sprintf("FAIL narrow-type thread %d step %d: %s handed out %s, which is NOT a type of the shared value (sequentially %s): an intermediate value of a type that is completed in place after its publication", t, i, progs[t][i], got, ref[progs[t][i]])
+				res.NonTrivial = true
+				return res
+			}
+		}
+	}
 	for t := range progs {
 		for i, o := range outs[t] {
 			switch o {
@@ -233,6 +303,29 @@ func genCache(g *core.G) {
 			}
 		}
 	}
+	// Arrays with slow elements: the fill is preempted inside its fold; every pair of programs of <= 2 steps over the three
+	// type reads, every schedule when it needs <= 8 slots, else every schedule with <= 2 (thorough 3) switches
+	slowVals := []string{"(a (i 1) (y))", "(a (y) (i 1))", "(a (y) (y))", "(a (i 1) (y) (s x61))", "(a (i 1) (i 2) (y))"}
+	for _, v := range slowVals {
+		ns := strings.Count(v, "(y)")
+		for _, p := range progs {
+			for _, q := range progs {
+				a, b := (2+ns)*len(p), (2+ns)*len(q)
+				emit := func(s []int) {
+					g.Emit("cache (val " + v + ") (threads (th " + strings.Join(p, " ") + ") (th " + strings.Join(q, " ") + ")) " + schedStr(s))
+				}
+				switch {
+				case a+b <= 8:
+					interleavings([]int{a, b}, emit)
+				case g.Thorough():
+					bounded([]int{a, b}, 3, emit)
+				default:
+					bounded([]int{a, b}, 2, emit)
+				}
+			}
+		}
+	}
+	g.Emit("typerace 20000 3")
 	// random: 3 threads × 1..3 steps
 	r := g.Rng
 	for i := 0; i < 500*g.Scale; i++ {
@@ -255,8 +348,80 @@ func genCache(g *core.G) {
 		}
 		g.Emit("cache (val " + vals[r.Intn(len(vals))] + ") (threads " + strings.Join(ths, " ") + ") " + schedStr(s))
 	}
-	for _, l := range []string{"cache (val (a (q 1))) (threads (th ptype)) (sched)", "cache (val (h ((s x) (i 1)))) (threads (th ptype)) (sched)",
+	for _, l := range []string{"cache (val (a (y))) (threads (th hkey)) (sched)", "cache (val (a (y 1))) (threads (th ptype)) (sched)", "typerace 0 1",
+		"cache (val (h ((s x61) (y)))) (threads (th ptype)) (sched)", "cache (val (a (q 1))) (threads (th ptype)) (sched)", "cache (val (h ((s x) (i 1)))) (threads (th ptype)) (sched)",
 		"cache (val (a)) (threads (th frob)) (sched)", "cache (val (a)) (threads) (sched)"} {
 		g.Emit(l)
 	}
+}
+
+// execTypeRace: free-running.  R rounds; each: a fresh shared Array [r, <nested Array of N mixed scalars>]; one goroutine
+// infers its type for the first time (a.PType()) while three readers keep asking for it; every type a reader is handed
+// must be a type of the array (px.IsInstance) — the placeholder of the known finding is one, an element type that only
+// covers the elements folded so far is not.  On a correct tree no timing can fail it.  Output: `ok`; class `narrow-type`.
+func execTypeRace(args []sx.Sexp) core.Result {
+	if len(args) != 2 {
+		return core.Result{Out: "bad-op", Pred: "n/a"}
+	}
+	n, err1 := args[0].AsInt()
+	rounds, err2 := args[1].AsInt()
+	if err1 != nil || err2 != nil || n <= 0 || rounds <= 0 || n > 200000 || rounds > 50 {
+		return core.Result{Out: "bad-op", Pred: "n/a"}
+	}
+	res := core.Result{Out: "ok", Pred: "ok", NonTrivial: true, Tags: []string{"free-running"}}
+	for r := int64(0); r < rounds; r++ {
+		inner := make([]px.Value, n)
+		for i := range inner {
+			if i%2 == 0 {
+				inner[i] = types.WrapInteger(int64(i))
+			} else {
+				inner[i] = types.WrapString(fmt.Sprintf("s%d", i))
+			}
+		}
+		a := types.WrapValues([]px.Value{types.WrapInteger(r), types.WrapValues(inner)})
+		start := make(chan struct{})
+		done := make(chan struct{})
+		bad := make(chan string, 4)
+		var wg sync.WaitGroup
+		wg.Add(4)
+		go func() {
+			defer wg.Done()
+			defer close(done)
+			defer func() { _ = recover() }()
+			<-start
+			a.PType()
+		}()
+		for k := 0; k < 3; k++ {
+			go func() {
+				defer wg.Done()
+				defer func() {
+					if e := recover(); e != nil {
+						bad <- fmt.Sprintf("a reader of the type of the shared Array panicked: %v", e)
+					}
+				}()
+				<-start
+				for {
+					t := a.PType()
+					if !px.IsInstance(t, a) {
+						bad <- fmt.Sprintf("a reader was handed %.80s, which is not a type of the shared Array", t.String())
+						return
+					}
+					select {
+					case <-done:
+						return
+					default:
+					}
+				}
+			}()
+		}
+		close(start)
+		wg.Wait()
+		select {
+		case m := <-bad:
+			res.Pred = fmt.Sprintf("FAIL narrow-type round %d: %s", r, m)
+			return res
+		default:
+		}
+	}
+	return res
 }
